@@ -434,6 +434,9 @@ fn eval_line(acc: &mut Acc, m: &mut Model, line: &str) {
             eval_tnp(acc, m, &s, line)
         }
         ["bitops", a, b] => eval_bitops(acc, m, &key_from_hex(a), &key_from_hex(b), line),
+        ["asyncread", size, sched] => eval_asyncread(acc, m, size.parse().unwrap(), sched, line),
+        ["walblob", seqn, spec] => eval_walblob(acc, m, seqn.parse().unwrap(), spec, line),
+        ["walblob", seqn] => eval_walblob(acc, m, seqn.parse().unwrap(), "", line),
         _ => panic!("unknown misc item {:?}", line),
     }
 }
@@ -629,6 +632,325 @@ fn gen_pairs(rng: &mut Rng, reps: usize) -> Vec<(Key, Key)> {
     v
 }
 
+// ---------------------------------------------------------------------------------------------
+// C09: the asynchronous overflow reader (hook H7) against AsyncRead.v
+
+/// the layout overflow::chunk writes for a value of `size` bytes: (pages in the cell, page numbers
+/// stored in page i, value bytes stored in page i)
+fn ar_layout(size: usize) -> (usize, Vec<usize>, Vec<usize>) {
+    let total = nomt::verif_api::total_needed_pages(size);
+    let c = total.min(CELL_PTRS);
+    let mut others = total - c;
+    let mut left = size;
+    let (mut ks, mut bs) = (Vec::new(), Vec::new());
+    for _ in 0..total {
+        let k = others.min(BODY / 4);
+        others -= k;
+        let b = (BODY - 4 * k).min(left);
+        left -= b;
+        ks.push(k);
+        bs.push(b);
+    }
+    (c, ks, bs)
+}
+
+/// a valid schedule for the layout: completions only for requests that were submitted and have not
+/// completed yet (the generator mirrors the reader's bookkeeping; `style` picks the shape)
+fn ar_schedule(rng: &mut Rng, c: usize, ks: &[usize], style: u64) -> Vec<String> {
+    let total = ks.len();
+    let (mut req, mut proc) = (0usize, 0usize);
+    let mut known = c;
+    let mut got: Vec<bool> = vec![false; total];
+    let mut inflight: Vec<usize> = Vec::new();
+    let mut out = Vec::new();
+    let mut guard_steps = 0;
+    while proc < total && guard_steps < 20 * total + 400 {
+        guard_steps += 1;
+        // how many submits in this burst
+        let burst = match style {
+            0 => 128,                          // the worker: as many as it may have in flight
+            1 => 1,
+            2 => rng.range(1, 6) as usize,
+            _ => rng.range(1, 200) as usize,
+        };
+        for _ in 0..burst {
+            out.push("s".to_string());
+            if req < total && req < known {
+                inflight.push(req);
+                req += 1;
+            }
+        }
+        if inflight.is_empty() {
+            continue;
+        }
+        // how many completions arrive before the next burst, and in which order
+        let ncomp = match style {
+            0 => 1,
+            1 => 1,
+            _ => rng.range(1, inflight.len() as u64) as usize,
+        };
+        for _ in 0..ncomp.min(inflight.len()) {
+            let pick = match rng.below(4) {
+                0 => 0,
+                1 => inflight.len() - 1,
+                _ => rng.below(inflight.len() as u64) as usize,
+            };
+            let i = inflight.remove(pick);
+            out.push(format!("c{}", i));
+            got[i] = true;
+            while proc < total && got[proc] {
+                known += ks[proc];
+                proc += 1;
+            }
+        }
+    }
+    out
+}
+
+fn eval_asyncread(acc: &mut Acc, m: &mut Model, size: usize, sched: &str, line: &str) {
+    let (c, ks, bs) = ar_layout(size);
+    let total = ks.len();
+    // page numbers 1..=total; page i carries its numbers and bytes in chunk's format
+    let mut pages: Vec<Vec<u8>> = Vec::with_capacity(total);
+    let mut next_pn = c as u32 + 1;
+    let mut value: Vec<u8> = Vec::with_capacity(size);
+    let mut segs: Vec<(usize, usize)> = Vec::new();
+    for i in 0..total {
+        let mut pg = vec![0u8; 4096];
+        pg[0..2].copy_from_slice(&(ks[i] as u16).to_le_bytes());
+        pg[2..4].copy_from_slice(&(bs[i] as u16).to_le_bytes());
+        for j in 0..ks[i] {
+            pg[4 + 4 * j..8 + 4 * j].copy_from_slice(&next_pn.to_le_bytes());
+            next_pn += 1;
+        }
+        let start = 4 + 4 * ks[i];
+        for j in 0..bs[i] {
+            pg[start + j] = ((i * 31 + j * 7 + 1) % 251) as u8;
+        }
+        segs.push((value.len(), bs[i]));
+        value.extend_from_slice(&pg[start..start + bs[i]]);
+        pages.push(pg);
+    }
+    let mut cell = vec![0u8; 40 + 4 * c];
+    cell[0..8].copy_from_slice(&(size as u64).to_le_bytes());
+    for j in 0..c {
+        cell[40 + 4 * j..44 + 4 * j].copy_from_slice(&(j as u32 + 1).to_le_bytes());
+    }
+    let events: Vec<Option<usize>> = sched.split(',').filter(|t| !t.is_empty()).map(|t| if t == "s" { None } else { Some(t[1..].parse().unwrap()) }).collect();
+    let dir = crate::util::fresh_dir("asyncread");
+    std::fs::create_dir_all(&dir).unwrap();
+    let path = dir.join("ln");
+    let f = std::fs::OpenOptions::new().read(true).write(true).create(true).open(&path).unwrap();
+    f.set_len((total as u64 + 2) * 4096).unwrap();
+    let got = catch_unwind(AssertUnwindSafe(|| nomt::verif_api::async_overflow_read(f, &cell, &pages, &events)));
+    let _ = std::fs::remove_dir_all(&dir);
+    acc.evals += 1;
+    acc.inc("asyncread.schedules", 1);
+    acc.inc("asyncread.events", events.len() as u64);
+    if total > CELL_PTRS {
+        acc.nontrivial.insert(line.to_string());
+        acc.inc("asyncread.values_with_page_numbers_outside_the_cell", 1);
+    }
+    let kstr = ks.iter().map(|k| k.to_string()).collect::<Vec<_>>().join(",");
+    let model = m.ask(&format!("asyncread 1 {} {} {}", c, kstr, sched));
+    let unguarded = m.ask(&format!("asyncread 0 {} {} {}", c, kstr, sched));
+    if unguarded == "panic" {
+        acc.inc("asyncread.schedules_on_which_the_unguarded_model_panics", 1);
+    }
+    let (subs, value_got) = match got {
+        Ok(x) => x,
+        Err(e) => {
+            let msg = e.downcast_ref::<String>().cloned().or_else(|| e.downcast_ref::<&str>().map(|s| s.to_string())).unwrap_or_else(|| "panic".into());
+            acc.violate("c09-asyncread-panic", format!("the asynchronous overflow reader panicked ({}) on a value of {} bytes ({} pages, {} in the cell); model: {}", msg, size, total, c, short(&model)), line.to_string());
+            return;
+        }
+    };
+    if model == "panic" || !model.starts_with("subs=") {
+        acc.violate("c09-asyncread-model", format!("the model answers {:?}", short(&model)), line.to_string());
+        return;
+    }
+    let field = |k: &str| model.split(' ').find_map(|t| t.strip_prefix(k)).unwrap_or("").to_string();
+    let subs_real: String = subs.iter().map(|s| match s { Some(i) => format!("{},", i), None => "-,".to_string() }).collect();
+    // the real loop stops at the value; the model consumed the whole schedule (later submits answer "-")
+    let msubs = field("subs=");
+    if !msubs.starts_with(&subs_real) || (value_got.is_none() && msubs != subs_real) {
+        acc.violate("c09-asyncread-submits-model-disagrees", format!("submit outcomes differ: real {} model {}", short(&subs_real), short(&msubs)), line.to_string());
+        return;
+    }
+    let mdone = field("done=") == "1";
+    match (&value_got, mdone) {
+        (Some(v), true) => {
+            let order: Vec<usize> = field("val=").split(',').filter(|t| !t.is_empty()).map(|t| t.parse().unwrap()).collect();
+            let mut expect = Vec::with_capacity(size);
+            for i in &order {
+                expect.extend_from_slice(&value[segs[*i].0..segs[*i].0 + segs[*i].1]);
+            }
+            if *v != expect || expect != value {
+                acc.violate("c09-asyncread-value", format!("the value returned for {} bytes / {} pages differs from the bytes of the pages in order", size, total), line.to_string());
+            }
+            acc.inc("asyncread.values_completed", 1);
+        }
+        (None, false) => acc.inc("asyncread.schedules_ending_before_the_value", 1),
+        (a, b) => acc.violate("c09-asyncread-done-model-disagrees", format!("real value present: {}, model done: {}", a.is_some(), b), line.to_string()),
+    }
+}
+
+fn gen_c09(rng: &mut Rng, thorough: bool) -> Vec<String> {
+    let mut items = Vec::new();
+    let mut sizes: Vec<usize> = vec![1333, 4092, 4093, 15 * 4092, 15 * 4092 + 1, 16 * 4092 - 4, 16 * 4092 - 3, 70000, 130000];
+    for _ in 0..(if thorough { 60 } else { 14 }) {
+        sizes.push(rng.range(1333, 300_000) as usize);
+    }
+    // more than 15 + 1023 pages: page numbers are spread over the first TWO pages of the value
+    sizes.push(4_243_390);
+    sizes.push(4_260_000);
+    if thorough {
+        sizes.push(8_500_000);
+    }
+    for size in sizes {
+        let (c, ks, _) = ar_layout(size);
+        for style in 0..4u64 {
+            let reps = if ks.len() > 1000 { 1 } else if thorough { 4 } else { 2 };
+            for _ in 0..reps {
+                let sched = ar_schedule(rng, c, &ks, style);
+                items.push(format!("asyncread {} {}", size, sched.join(",")));
+            }
+        }
+    }
+    items
+}
+
+// ---------------------------------------------------------------------------------------------
+// C03 / C16: the WAL blob builder (hook H8) against the Coq WAL codec (Wal.v), on chosen lengths
+
+/// entries whose encoding (start tag + seqn, entries, WITHOUT the end tag) is exactly `len` bytes:
+/// 5 + 9 per clear + (65 + 32 * nodes) per update
+fn wal_spec_for_len(rng: &mut Rng, len: usize) -> Option<String> {
+    let mut cands = Vec::new();
+    for p in 0..=96usize {
+        for c in 0..=40usize {
+            if 5 + 65 * p + 9 * c > len {
+                break;
+            }
+            let rem = len - 5 - 65 * p - 9 * c;
+            if rem % 32 == 0 && rem / 32 <= 126 * p {
+                cands.push((p, c, rem / 32));
+            }
+        }
+    }
+    if cands.is_empty() {
+        return None;
+    }
+    let (p, c, mut n) = cands[rng.below(cands.len() as u64) as usize];
+    // spread the nodes over the updates
+    let mut per = vec![0usize; p];
+    let mut i = 0;
+    while n > 0 {
+        let room = 126 - per[i % p];
+        let take = room.min(n).min(1 + rng.below(126) as usize);
+        per[i % p] += take;
+        n -= take;
+        i += 1;
+    }
+    let mut toks: Vec<String> = per.iter().enumerate().map(|(j, k)| format!("u{}:{}", 1000 + j, k)).collect();
+    toks.extend((0..c).map(|j| format!("c{}", 5000 + j)));
+    // shuffle
+    for j in (1..toks.len()).rev() {
+        let k = rng.below(j as u64 + 1) as usize;
+        toks.swap(j, k);
+    }
+    Some(toks.join(","))
+}
+
+fn eval_walblob(acc: &mut Acc, m: &mut Model, seqn: u32, spec: &str, line: &str) {
+    let mut entries: Vec<(u64, Option<([u8; 32], [u8; 16], Vec<[u8; 32]>, [u8; 8])>)> = Vec::new();
+    let mut want: Vec<String> = Vec::new();
+    let mut content = 5usize;
+    for (idx, t) in spec.split(',').filter(|t| !t.is_empty()).enumerate() {
+        if let Some(b) = t.strip_prefix('c') {
+            let b: u64 = b.parse().unwrap();
+            entries.push((b, None));
+            want.push(format!("C {}", b));
+            content += 9;
+        } else {
+            let (b, k) = t[1..].split_once(':').unwrap();
+            let (b, k): (u64, usize) = (b.parse().unwrap(), k.parse().unwrap());
+            let mut id = [0u8; 32];
+            for (j, x) in id.iter_mut().enumerate() {
+                *x = ((idx * 37 + j * 11 + 3) % 256) as u8;
+            }
+            // the first k slots changed
+            let mut bits = [0u64; 2];
+            for sl in 0..k {
+                bits[sl / 64] |= 1 << (sl % 64);
+            }
+            let mut diff = [0u8; 16];
+            diff[0..8].copy_from_slice(&bits[0].to_le_bytes());
+            diff[8..16].copy_from_slice(&bits[1].to_le_bytes());
+            let nodes: Vec<[u8; 32]> = (0..k).map(|sl| [((idx + sl * 5 + 1) % 255) as u8; 32]).collect();
+            let elided = (idx as u64 * 0x9E37_79B9).to_le_bytes();
+            entries.push((b, Some((id, diff, nodes, elided))));
+            want.push(format!("U {} {} {} {}", b, hex(&id), k, u64::from_le_bytes(elided)));
+            content += 65 + 32 * k;
+        }
+    }
+    acc.evals += 1;
+    acc.inc("walblob.blobs", 1);
+    acc.inc(&format!("walblob.content_len_mod_4096={}", match content % 4096 { 0 => "0", 4095 => "4095", 1 => "1", _ => "other" }), 1);
+    acc.nontrivial.insert(line.to_string());
+    let blob = match catch_unwind(AssertUnwindSafe(|| nomt::verif_api::wal_blob(seqn, &entries))) {
+        Ok(b) => b,
+        Err(_) => {
+            acc.violate("c03-walblob-panic", format!("WalBlobBuilder panicked on {} entries, content length {}", entries.len(), content), line.to_string());
+            return;
+        }
+    };
+    let expect_len = (content + 1 + 4095) / 4096 * 4096;
+    if blob.len() != expect_len {
+        acc.violate("c03-walblob-length", format!("the blob has {} bytes; {} bytes of entries plus the end tag need {} (whole pages)", blob.len(), content, expect_len), line.to_string());
+    }
+    let dir = crate::util::fresh_dir("walblob");
+    std::fs::create_dir_all(&dir).unwrap();
+    std::fs::write(dir.join("wal"), &blob).unwrap();
+    let r = m.ask(&format!("walopen {}", dir.display()));
+    let ents = if r.starts_with("ok") { m.ask_multi("walentries") } else { vec![] };
+    let _ = std::fs::remove_dir_all(&dir);
+    if !r.starts_with("ok") {
+        acc.violate("c03-walblob-decode", format!("the Coq WAL decoder rejects the blob the real builder produced for {} entries with content length {} ({} bytes): {}", entries.len(), content, blob.len(), r), line.to_string());
+        return;
+    }
+    let f = |k: &str| r.split(' ').find_map(|t| t.strip_prefix(k)).unwrap_or("").to_string();
+    if f("seqn=") != seqn.to_string() || f("reencode=") != "ok" {
+        acc.violate("c03-walblob-reencode", format!("decoded seqn {} (built with {}), re-encoding: {}", f("seqn="), seqn, f("reencode=")), line.to_string());
+    }
+    let got: Vec<String> = ents.into_iter().filter(|l| l != "end").collect();
+    if got != want {
+        acc.violate("c03-walblob-entries", format!("the decoder reads {} entries, {} were written; first difference at {:?}", got.len(), want.len(), got.iter().zip(want.iter()).position(|(a, b)| a != b)), line.to_string());
+    }
+}
+
+fn gen_c03(rng: &mut Rng, thorough: bool) -> Vec<String> {
+    let mut items = Vec::new();
+    let mut lens: Vec<usize> = Vec::new();
+    for pages in [1usize, 2, 3, 4, 8] {
+        for d in [-66i64, -33, -9, -2, -1, 0, 1, 2, 9, 33] {
+            lens.push((pages as i64 * 4096 + d) as usize);
+        }
+    }
+    lens.extend([5usize, 14, 70, 102, 500]);
+    for _ in 0..(if thorough { 200 } else { 30 }) {
+        lens.push(rng.range(5, 40_000) as usize);
+    }
+    for l in lens {
+        for _ in 0..(if thorough { 3 } else { 1 }) {
+            if let Some(spec) = wal_spec_for_len(rng, l) {
+                items.push(format!("walblob {} {}", 1 + rng.below(1000), spec));
+            }
+        }
+    }
+    items
+}
+
 fn gen_c01(rng: &mut Rng, thorough: bool) -> Vec<String> {
     let mut items = Vec::new();
     // every size of [1333, 300000]
@@ -703,6 +1025,8 @@ pub fn cmd_misc(kv: &HashMap<String, String>) -> i32 {
     let items = match prop.as_str() {
         "C13" => gen_c13(&mut rng, thorough),
         "C01" => gen_c01(&mut rng, thorough),
+        "C09" => gen_c09(&mut rng, thorough),
+        "C03" | "C16" => gen_c03(&mut rng, thorough),
         p => {
             eprintln!("nv misc: no checks for property {}", p);
             return 2;
@@ -745,6 +1069,8 @@ pub fn cmd_misc(kv: &HashMap<String, String>) -> i32 {
         items.iter().filter(|l| seen.insert(l.split(' ').next().unwrap_or("").to_string())).take(6).map(|l| J::s(short(l))).collect()
     };
     let rule = match prop.as_str() {
+        "C03" | "C16" => "one evaluation = one WAL blob built by the REAL WalBlobBuilder (hook H8: verif_api::wal_blob) from a chosen entry list - clears and updates with 0..126 changed nodes, the lengths chosen so that the encoded entries end exactly on, one byte before and one byte after a 4 KiB boundary (1, 2, 3, 4, 8 pages) besides random lengths - and decoded by the extracted Coq WAL decoder (Wal.v): the decoder must accept it, report the sequence number and exactly the entries written, the Coq encoder must reproduce the bytes, and the blob must be the entries plus the end tag rounded up to whole pages; distinct = distinct item text",
+        "C09" => "one evaluation = one schedule (bursts of submits, completions in arbitrary order; the generator only emits completions of requests that are in flight) run through the REAL beatree AsyncReader (hook H7: verif_api::async_overflow_read over a scratch file; pages in overflow::chunk's format) and through the extracted AsyncRead.run: the outcome of every submit (index or none), whether the reader is done, and the returned value (the bytes of the pages in the order the model parsed them, equal to the whole value) must agree, and the real reader must not panic; values of 1 to 2000+ pages incl. 15 / 16 pages and more than 15 + 1023 pages; distinct = distinct item text; non-trivial = a value with page numbers outside the leaf cell (more than 15 pages)",
         "C13" => "one evaluation = one result of the real function judged by / compared with the extracted Coq functions of ShardsGen.v applied to the REAL regions: one shard's (min key, max key, child count) of shard_regions(n) under regions_okb (ANY partition of the 64 root children into contiguous non-empty runs passes; the comparison with the reference split Shards.shard_regions is a statistic), one answer of shard_index_for(n, child) against index_of_child on the real regions - both for ALL n in 1..=64 and ALL 64 children - and one worker's [range_start, range_end) of a generated sorted batch computed as RangeUpdater::new does (binary_search_by_key / partition_point on the real region keys) against ranges_of <real regions> batch; each item is also checked on the Rust values against the proved statements (regions_okb_sound, ranges_partition_gen); distinct = distinct item text; non-trivial = a batch spread over at least two workers, or a region / index answer",
         _ => "one evaluation = one result of the real function compared with the extracted Coq mirror on the same input: total_needed_pages(size) (Overflow.v; every size in [1333, 300000] plus sampled sizes up to 2^29) and, per key pair, prefix_len, separate (value or panic) and separator_len of a, b and the separator (BitOps.v; shared prefixes of every length 0..255, adjacent keys, all-zero / all-one tails, equal keys); the Rust values are also checked against the proved statements (fits, last page used, at most one page wasted; a < separator <= b, shortest, zero padded prefix of b); distinct = distinct input; non-trivial = a size needing out-of-cell pointers (more than 15 pages) or a key pair with a < b",
     };
